@@ -6,7 +6,7 @@ T = {
  "C02": ("E1-sweep", "complete enumeration of every vocabulary of the configuration lattice + closure of all emitted tokens (explicit enumeration)", "5.C02"),
  "C03": ("E2-bfs", "explicit-state exploration of all partitions of the bar sequence as paths of the carried-state graph, checked against single-call tokenisation and the description", "5.C03"),
  "C04": ("E2-bfs", "explicit-state BFS over histories of public Sequence operations with view-agreement invariant, differential freshness oracle and closed freshness automaton replayed on the implementation", "5.C04"),
- "C05": ("E1-sweep", "bounded-exhaustive enumeration of note sets x step lists against the quantisation contract model", "5.C05"),
+ "C05": ("E1-sweep", "bounded-exhaustive enumeration of note sets x step lists (also on live objects after every history of depth <= 2) against the quantisation contract model", "5.C05"),
  "C06": ("E1-sweep", "bounded-exhaustive enumeration of note sets x value lists x extension flag against an independent fit model", "5.C06"),
  "C07": ("E1-sweep", "exhaustive enumeration of all message words up to a length bound, output replayed by an independent open-note automaton", "5.C07"),
  "C08": ("E1-sweep", "bounded-exhaustive enumeration of sequences x capacity lists against the conservation contract", "5.C08"),
@@ -19,9 +19,9 @@ T = {
  "C15": ("E1-sweep", "bounded-exhaustive enumeration of sequence families and all their permutations against the union model", "5.C15"),
  "C16": ("E2-bfs", "explicit-state exploration of (original, derived) pairs under all short operation histories on either side with the non-interference invariant", "5.C16"),
  "C17": ("E1-sweep", "bounded-exhaustive enumeration of base sequences x all single-attribute perturbations x all flag sets against a table-driven oracle", "5.C17"),
- "C18": ("E1-sweep", "bounded-exhaustive enumeration of sequences x argument values against list-model predictions", "5.C18"),
- "C19": ("E2-bfs", "exhaustive tree of all token streams up to a length bound + probe-keyed state graph of the two clocks, every stream checked against the reference clock and detokenise", "5.C19"),
- "C20": ("E1-sweep", "complete enumeration of the finite domains (15 keys x intervals, 128x128 pitch pairs) against an independent algebra", "5.C20"),
+ "C18": ("E1-sweep", "bounded-exhaustive enumeration of sequences x argument values (also on live objects after every history of depth <= 2) against list-model predictions", "5.C18"),
+ "C19": ("E2-bfs", "exhaustive tree of all token streams up to a length bound + state graph of the reference clock with every edge and four probe streams replayed on the implementation, each checked against the reference clock and detokenise", "5.C19"),
+ "C20": ("E1-sweep", "complete enumeration of the finite domains (15 keys x intervals, 128x128 pitch pairs), repeated after nine call histories in fresh processes, against an independent algebra", "5.C20"),
 }
 def main():
     checks, na = [], []
